@@ -19,6 +19,9 @@ import threading
 import time
 from asyncio import CancelledError
 from concurrent.futures import CancelledError as FutCancelledError
+from concurrent.futures import TimeoutError as FutTimeoutError
+from concurrent.futures import as_completed as cf_as_completed
+from concurrent.futures import wait as cf_wait
 from threading import get_ident
 
 import core
@@ -26,15 +29,15 @@ import core
 DRIVERS = [("portal", "Portal")]
 
 # ---- codec (must match boundary/Portal.v) --------------------------------------------------------------------
-ISSUE, LAND, STEP, REAP, FCANCEL, CLAND, STOP, HEXIT, HRESUME = range(9)
+ISSUE, LAND, STEP, REAP, FCANCEL, CLAND, STOP, HEXIT, HRESUME, LOOPEND = range(10)
 OPN = {ISSUE: "ThreadIssue", LAND: "ThreadLand", STEP: "TaskStep", REAP: "TaskReap", FCANCEL: "FutureCancel",
-       CLAND: "CancelLand", STOP: "Stop", HEXIT: "HostExit", HRESUME: "ResumeHost"}
+       CLAND: "CancelLand", STOP: "Stop", HEXIT: "HostExit", HRESUME: "ResumeHost", LOOPEND: "LoopEnd"}
 KSYNC, KCORO, KSTART = 0, 1, 2
 F_BLOCK, F_RETURN, F_RAISE, F_RERAISE, F_CANCEL_OWN = 0, 1, 2, 3, 4
 # payload of F_CANCEL_OWN (ignored by the model): how the callable's own cancellation comes about
 OWN_RAISE, OWN_AWAIT_CANCELLED, OWN_NATIVE = 0, 1, 2   # raise CancelledError() / awaited future cancelled / Task.cancel()
 E_NOSTART = 50
-NOBS_GLOBAL = 7
+NOBS_GLOBAL = 9
 NOBS_CALL = 9
 THREAD_WAIT = 8.0     # a helper thread that does not reach its next stable point within this time is a failure
 
@@ -64,12 +67,26 @@ def exc_code(e: BaseException) -> int:
     return 98
 
 
-def cell_obs(f) -> list[int]:
-    """(code, value) of a concurrent.futures.Future, public API only."""
+def reported_done(f) -> bool:
+    """Is the future reported as done by concurrent.futures.wait()?  (false for a cancelled future whose waiters
+    were never notified: state CANCELLED instead of CANCELLED_AND_NOTIFIED)"""
+    return f in cf_wait([f], timeout=0).done
+
+
+def yielded_by_as_completed(f) -> bool:
+    try:
+        return any(x is f for x in cf_as_completed([f], timeout=0))
+    except (TimeoutError, FutTimeoutError):
+        return False
+
+
+def cell_obs(f, notify_bit: bool = False) -> list[int]:
+    """(code, value) of a concurrent.futures.Future, public API only; with notify_bit a cancelled future is
+    3 = CANCELLED (not reported by wait()) or 4 = CANCELLED_AND_NOTIFIED."""
     if f is None or not f.done():
         return [0, 0]
     if f.cancelled():
-        return [3, 0]
+        return [4 if (notify_bit and reported_done(f)) else 3, 0]
     e = f.exception(0)
     if e is not None:
         return [2, exc_code(e)]
@@ -101,6 +118,8 @@ class CallRec:
         self.final = None                  # ('ret', v) | ('raise', exc) | ('cancelled',)
         self.started_val = None
         self.interrupts = 0
+        self.lost = False                  # handed over after the loop's last iteration (F40)
+        self.cancel_lost = False           # ... the scope.cancel of a Future.cancel() likewise
         self.own_cancel = False            # the callable's own outcome was a cancellation not requested via the portal
         self.steps_after_left = 0
         self.cancel_threads: list = []     # [thread, result-box, handle-or-None]
@@ -127,6 +146,8 @@ class PortalRun:
         self.host_exc = None
         self.stopped_ever = False
         self.cancel_remaining_requested = False   # some stop(cancel_remaining=True) ran while the group was entered
+        self.loop_ended = False            # env op LoopEnd performed: the harness never runs a handle again
+        self.known_hits: list[str] = []    # hangs explained by the known finding F40 (predicate landed_after_loop_end)
         self.group_cancel_cause = None     # why the portal's group scope may legitimately be cancelled
         self.group_cancel_reported = False
         self.own_cancel_seen = False
@@ -261,6 +282,8 @@ class PortalRun:
     def normalise(self):
         """Run the loop's internal bookkeeping that is not an op of the model: cancellation delivery retries and
         the host's spurious wake-ups inside the wait loop."""
+        if self.loop_ended:
+            return
         for _ in range(2):
             ran = False
             for h in list(self.loop.ready_handles()):
@@ -374,6 +397,8 @@ class PortalRun:
     def phase(self, rec: CallRec | None) -> int:
         if rec is None:
             return 0
+        if rec.lost:
+            return 8
         if rec.task is None:
             if rec.caller is not None and rec.caller[0] == "exc":
                 return 3 if rec.passed_check else 1
@@ -391,6 +416,8 @@ class PortalRun:
     def caller_code(self, rec: CallRec | None) -> int:
         if rec is None:
             return 0
+        if rec.lost:
+            return 8 if rec.caller is None else 98
         if rec.caller is None:
             if rec.task is None:
                 return 2
@@ -416,14 +443,15 @@ class PortalRun:
         woken = 1 if (f is not None and f.done() and not f.cancelled()) else 0
         out = [res, 1 if self.portal._event_loop_thread_id is not None else 0,
                1 if self.portal._stop_event.is_set() else 0, self.host_code(), woken, len(self.tg._tasks),
-               1 if self.tg.cancel_scope.cancel_called else 0]
+               1 if self.tg.cancel_scope.cancel_called else 0, 1 if self.loop_ended else 0,
+               1 if any(r.lost or r.cancel_lost for r in self.recs.values()) else 0]
         for k in range(self.ncalls):
             rec = self.recs.get(k)
             if rec is None:
                 out += [0, 0, 0, 0, 0, 0, 0, 0, 0]
                 continue
             landed = rec.task is not None
-            out += [self.phase(rec)] + (cell_obs(rec.fut) if landed else [0, 0]) \
+            out += [self.phase(rec)] + (cell_obs(rec.fut, notify_bit=True) if landed else [0, 0]) \
                 + (cell_obs(rec.status_fut) if landed else [0, 0]) \
                 + [rec.execs, 1 if self.interruptible(rec) else 0, 1 if rec.cancel_handle is not None else 0,
                    self.caller_code(rec)]
@@ -435,6 +463,14 @@ class PortalRun:
         nxt = len(self.recs)
         if nxt < self.ncalls:
             en += [(ISSUE, nxt, kd) for kd in (KSYNC, KCORO, KSTART)]
+        if self.loop_ended:
+            # the loop is not running any more: only thread-side actions remain (a hand-over is now lost: F40)
+            for k, rec in self.recs.items():
+                if rec.at_gate and rec.task is None and rec.land_handle is None and not rec.lost:
+                    en.append((LAND, k))
+                if rec.cancel_handle is not None and not rec.cancel_lost:
+                    en.append((CLAND, k))
+            return en
         for k, rec in self.recs.items():
             if rec.at_gate and rec.task is None and rec.land_handle is None:
                 en.append((LAND, k))
@@ -463,6 +499,9 @@ class PortalRun:
                 en += [(HEXIT, 0), (HEXIT, 1)]
         if self.host_state == "exiting" and self._handle_of(self.host_task) is not None:
             en.append((HRESUME,))
+        if self.host_state == "left" and all(r.task is None or (r.task.done() and r.task not in self.tg._tasks)
+                                             for r in self.recs.values()):
+            en.append((LOOPEND,))
         return en
 
     # ---- performing one op ------------------------------------------------------------------------------------
@@ -520,11 +559,18 @@ class PortalRun:
                 return 1
             self.harness_errors.append(f"issue of {k} ended with {rec.caller!r}")
             return 98
+        if code == LOOPEND:
+            if self.host_state != "left" or self.loop_ended:
+                return 99
+            self.loop_ended = True             # from now on the harness never runs a handle of this loop
+            return 7
+        if self.loop_ended and code in (STEP, REAP, STOP, HEXIT, HRESUME):
+            return 99
         rec = self.recs.get(k) if code in (LAND, STEP, REAP, FCANCEL, CLAND) else None
         if code in (LAND, STEP, REAP, FCANCEL, CLAND) and rec is None:
             return 99
         if code == LAND:
-            if not rec.at_gate or rec.task is not None or rec.land_handle is not None:
+            if not rec.at_gate or rec.task is not None or rec.land_handle is not None or rec.lost:
                 return 99
             before = {id(h) for h in loop._ready}
             tasks_before = set(asyncio.all_tasks(loop))
@@ -534,6 +580,11 @@ class PortalRun:
                 self.harness_errors.append(f"caller {k} finished without marshalling: {rec.caller!r}")
                 return 98
             rec.land_handle = h
+            if self.loop_ended:
+                # F40: the thread passed _check_running before stop(); its call_soon_threadsafe comes after the loop's
+                # last iteration: the handle stays in the ready queue for ever
+                rec.lost = True
+                return 10
             loop.run_handle(h)                 # = the marshalled start_soon runs in the loop
             rec.land_handle = None
             new = [t for t in asyncio.all_tasks(loop) if t not in tasks_before]
@@ -617,6 +668,9 @@ class PortalRun:
         if code == CLAND:
             if rec.cancel_handle is None:
                 return 99
+            if self.loop_ended:
+                rec.cancel_lost = True         # F40, second entry point: Future.cancel() never returns
+                return 10
             h = rec.cancel_handle
             loop.run_handle(h)
             rec.cancel_handle = None
